@@ -198,8 +198,8 @@ def check_broadcast_before_use(rep, prog):
                     problems.append('broadcast root is not 0')
                 if val is None:
                     continue
-                if ex.key(val) == skey:
-                    good_blocks.add(cfg.pos_of(b)[0])
+                if ex.key(val) == skey or ex.key(ex.alias_of(fn, val)) == skey:
+                    good_blocks.add(cfg.pos_of(b)[0])      # support[k] itself, or a reference bound to it
                     continue
                 v = ex.var_of(val)
                 copied = False
@@ -465,11 +465,137 @@ def comparator_address_free(prog, lam):
     return ok_any
 
 
+def find_range_slices(prog, fn):
+    """slices taken as iterator ranges: T local(seq.begin() + F, seq.begin() + L) / chunks.emplace_back(seq.begin() + F, seq.begin() + L) with
+    rank-dependent F, L (or depending on the index of an enclosing loop over p < world.size())"""
+    rank_only = set(common.rank_vars_of(fn))
+    ploops = {}
+    for n in fn.walk():
+        if n.k == 'ForStmt' and n.cond is not None:
+            c = n.cond.strip_all()
+            if c.k == 'BinaryOperator' and c.op == '<':
+                r = c.c[1].strip_all()
+                if r.k == 'CXXMemberCallExpr' and r.callee and r.callee['g'] == 'boost::mpi::communicator::size':
+                    iv, lo, op, hi, st = phase.loop_header(n)
+                    if iv is not None:
+                        ploops[iv] = n
+
+    def offset(a):
+        s = a.strip_all()
+        if s.k == 'CXXOperatorCallExpr' and s.op == '+' and len(s.c) == 3:
+            b = s.c[1].strip_all()
+            if b.k == 'CXXMemberCallExpr' and b.callee and b.callee['name'] in ('begin', 'cbegin'):
+                return ex.var_of(b.object_arg()), s.c[2]
+        return None, None
+    res = []
+    for n in fn.walk():
+        args = None
+        if n.k in ex.CTOR_KINDS and len(n.c) >= 2:
+            args = n.c[:2]
+        elif n.k == 'CXXMemberCallExpr' and n.callee and n.callee['name'] in ('emplace_back', 'assign') and len(n.args()) == 2:
+            args = n.args()
+        if not args:
+            continue
+        (s1, f), (s2, l) = offset(args[0]), offset(args[1])
+        if s1 is None or s1 != s2:
+            continue
+        seen = set()
+        work = list(ex.vars_in(f) | ex.vars_in(l))
+        while work:
+            v = work.pop()
+            if v in seen:
+                continue
+            seen.add(v)
+            d = ex.unique_def(fn, v)
+            if d is not None:
+                work.extend(ex.vars_in(d))
+        pvars = [p for p in ploops if p in seen and ploops[p].is_ancestor_of(n)]
+        rank_dep = bool(seen & rank_only) or any(common.mentions_rank(ex.unique_def(fn, v), rank_only) for v in seen if ex.unique_def(fn, v) is not None) or \
+            common.mentions_rank(f, rank_only) or common.mentions_rank(l, rank_only)
+        if rank_dep or pvars:
+            res.append((n, s1, f, l, pvars[0] if pvars else None))
+    return res
+
+
+def eval_range_slice(prog, fn, f, l, pvar, total_v, size_v, rank_v):
+    defs = unique_defs(fn)
+
+    def bind(s):
+        if s.k == 'CXXMemberCallExpr' and s.callee:
+            g = s.callee['g']
+            if g == 'boost::mpi::communicator::size':
+                return size_v
+            if g == 'boost::mpi::communicator::rank':
+                return rank_v
+            if s.callee['name'] == 'size':
+                return total_v
+        if s.k == 'CallExpr' and s.callee and s.callee['g'] in ('boost::num_vertices', 'boost::num_edges'):
+            return total_v
+        v = ex.var_of(s)
+        if v is not None and pvar is not None and v == pvar and s.strip_all().k == 'DeclRefExpr':
+            return rank_v
+        return None
+    a, b = int(ex.ceval(f, bind, defs)), int(ex.ceval(l, bind, defs))
+    if a > b or b > total_v:
+        raise ex.Unknown('range [%d, %d) is not inside [0, %d]' % (a, b, total_v)) if a <= b else _BadRange(a, b)
+    return list(range(a, b))
+
+
+class _BadRange(Exception):
+    def __init__(self, a, b):
+        Exception.__init__(self, 'first %d > last %d' % (a, b))
+        self.a, self.b = a, b
+
+
+def check_range_slices(rep, prog, fn):
+    count = 0
+    for (node, seqvar, f, l, pvar) in find_range_slices(prog, fn):
+        count += 1
+        what = 'the per-rank index slices cover 0..total-1 exactly once for every total and communicator size'
+        bad = unknown = None
+        try:
+            for total_v, size_v in itertools.product((0, 1, 2, 3, 5, 7, 8, 10, 13), (1, 2, 3, 4, 5, 8, 9, 12, 16)):
+                cover = []
+                for r in range(size_v):
+                    try:
+                        cover.extend(eval_range_slice(prog, fn, f, l, pvar, total_v, size_v, r))
+                    except _BadRange as e:
+                        bad = (total_v, size_v, 'rank %d builds the iterator range [begin+%d, begin+%d) with first after last' % (r, e.a, e.b))
+                        break
+                if bad:
+                    break
+                want = list(range(total_v))
+                if sorted(cover) != want:
+                    bad = (total_v, size_v, 'the slices miss indices %s, duplicate %s' % (sorted(set(want) - set(cover)), sorted(set(x for x in cover if cover.count(x) > 1))))
+                    break
+        except ex.Unknown as e:
+            unknown = str(e)
+        if unknown:
+            rep.undecided('R04c', node, fn, what, 'slice bounds could not be evaluated: ' + unknown)
+        elif bad:
+            rep.violation('R04c', node, fn, what, 'with total=%d items and %d ranks %s' % bad, key='R04c|%s|coverage' % fn.g)
+        else:
+            rep.ok('R04c', node, fn, what, 'iterator-range slice evaluated for 9 totals x 9 communicator sizes: exact partition')
+        rep.ok('R04h', node, fn, 'what is computed for index i inside a rank slice does not depend on the indices visited before it', 'the slice is a plain copy of a range')
+        whatd = 'the sliced sequence has the same order on every rank (no address-ordered container behind it)'
+        kind, why = order_of_sequence(prog, fn, seqvar, node)
+        if kind == 'index':
+            rep.ok('R04d', node, fn, whatd, why)
+        elif kind == 'address':
+            rep.violation('R04d', node, fn, whatd, '%s takes its order from `%s`, a std::set ordered by edge-property *addresses*: ranks whose heaps differ slice '
+                          'different orders, so some candidates are searched by no rank' % (prog.vars[seqvar]['name'], why),
+                          key='R04d|%s|%s' % (fn.g, prog.vars[seqvar]['name']))
+        else:
+            rep.undecided('R04d', node, fn, whatd, why)
+    return count
+
+
 def check_slices(rep, prog):
     count = 0
     for fn in prog.functions:
         if not ((fn.file.startswith(env.REPO + '/include') or fn.file.startswith(env.WITNESS + '/positive')) and '/parmcb/mpi/' in fn.file) or fn.is_lambda or fn.implicit:
             continue
+        count += check_range_slices(rep, prog, fn)
         for (loop, iv, lo, pvar) in find_slices(prog, fn):
             count += 1
             what = 'the per-rank index slices cover 0..total-1 exactly once for every total and communicator size'
